@@ -79,13 +79,15 @@ CommitU == [rev : Revs, sha : Shas, tree : Shas, ver : Vers]
 ObjU == [t : {"blob", "tree"}, sha : Shas, fid : Fids, rev : Revs]
 AllC == commits \cup pcommits \cup lcommits
 AllO == objs \cup pobjs \cup lobjs
-\* the converter is deterministic: a revision has one commit entry, a (kind, file id, revision) one sha
-\* and a file id names a file or a directory, never both
-Functional(C, O) == /\ \A c1, c2 \in C : c1.rev = c2.rev => c1 = c2
+\* the converter is deterministic: a revision has one commit entry, a (file id, revision) one sha; a file id names a
+\* file or a directory, never both; a git sha names one object (one commit, or blobs, or trees)
+Functional(C, O) == /\ \A c1, c2 \in C : (c1.rev = c2.rev \/ c1.sha = c2.sha) => c1 = c2
                     /\ \A o1, o2 \in O : (o1.fid = o2.fid /\ o1.rev = o2.rev) => o1 = o2
-                    /\ \A o1, o2 \in O : o1.fid = o2.fid => o1.t = o2.t
+                    /\ \A o1, o2 \in O : (o1.fid = o2.fid \/ o1.sha = o2.sha) => o1.t = o2.t
+                    /\ \A c \in C, o \in O : c.sha # o.sha
 Next == \/ StartWG \/ CommitWG \/ AbortWG \/ Reopen \/ Repack
         \/ \E c \in CommitU : \E os \in {S \in SUBSET {o \in ObjU : o.rev = c.rev} : Cardinality(S) <= MaxObjs} :
+              /\ c.rev \notin RevidsOf(VisC)        \* _update_sha_map converts only revisions that are missing
               /\ Functional(AllC \cup {c}, AllO \cup os)
               /\ AddRevision(c, os)
 Spec == Init /\ [][Next]_vars
